@@ -205,12 +205,35 @@ func genBlock(t *rapid.T, cc DCfg, have int, o decOpts, hostile bool) (seqs []lz
 			if int64(s.LitLen) <= int64(rem) {
 				s.LitLen = uint32(rem + 1)
 			}
+			if rapid.Bool().Draw(t, "badLitSmall") {
+				s.LitLen = uint32(rem + rapid.IntRange(1, 8).Draw(t, "badLitBy"))
+			}
 		case 3: // enormous but well-formed match length
 			s.MatchLen = rapid.SampledFrom([]uint32{math.MaxInt32, math.MaxInt32 + 1, math.MaxUint32, 1 << 20}).Draw(t, "hugeM")
 		default: // arbitrary fields
 			s.LitLen = genHostileU32(t, "anyLit", 1)
 			s.MatchLen = genHostileU32(t, "anyM", 1)
 			s.Offset = genHostileU32(t, "anyO", 1)
+		}
+		// Sometimes a second sequence is hostile too: fields that only make
+		// sense together with the first one (sums of LitLen or of
+		// LitLen+MatchLen that pass 2^32).
+		if len(seqs) > 1 && rapid.IntRange(0, 2).Draw(t, "bad2") == 0 {
+			j := rapid.IntRange(0, len(seqs)-1).Draw(t, "badAt2")
+			if j != i {
+				s2 := &seqs[j]
+				comp := uint32(0) - s.LitLen // wraps the sum of the two to 0
+				switch rapid.IntRange(0, 3).Draw(t, "bad2Kind") {
+				case 0:
+					s2.LitLen = comp + uint32(rapid.IntRange(0, len(lits)+1).Draw(t, "bad2Lit"))
+				case 1:
+					s2.LitLen = math.MaxUint32 - uint32(rapid.IntRange(0, 16).Draw(t, "bad2LitTop"))
+				case 2:
+					s2.MatchLen = math.MaxUint32 - s2.LitLen + uint32(rapid.IntRange(0, 3).Draw(t, "bad2M"))
+				default:
+					s2.LitLen = genHostileU32(t, "bad2AnyLit", 1)
+				}
+			}
 		}
 	}
 	return seqs, lits
@@ -301,6 +324,10 @@ func genWriterScript(t *rapid.T, faults bool) []WEvent {
 			evs = append(evs, WEvent{Accept: 0, Err: true})
 		default:
 			evs = append(evs, WEvent{Accept: -1, Err: true})
+		}
+		// the value of the writer's error
+		if e := &evs[len(evs)-1]; e.Err || e.Accept >= 0 {
+			e.Kind = rapid.SampledFrom([]string{"", "", "F", "F", "S", "C"}).Draw(t, "wkind")
 		}
 	}
 	return evs
